@@ -14,7 +14,7 @@
         control contents, registered ids found, unregistered ids rejected, error record fields, SIGABRT
 4. decision + evidence (vlib.finish)
 """
-import concurrent.futures, hashlib, json, os, re, signal, sys, time
+import concurrent.futures, hashlib, itertools, json, os, re, signal, sys, time
 sys.path.insert(0, os.path.join(os.path.dirname(os.path.abspath(__file__)), '..', 'tools'))
 import vlib
 
@@ -93,13 +93,12 @@ def all_ids(u):
     return [t for _, ids in u['classes'] for t in ids]
 
 
-_tmpn = [0]
+_tmpn = itertools.count(1)      # next() is atomic: the histories run on a thread pool
 
 
 def tmp_path(tag):
     os.makedirs(WORK, exist_ok=True)
-    _tmpn[0] += 1
-    return os.path.join(WORK, '%d-%d-%s.case' % (os.getpid(), _tmpn[0], tag))
+    return os.path.join(WORK, '%d-%d-%s.case' % (os.getpid(), next(_tmpn), tag))
 
 
 def parse_output(out):
@@ -524,7 +523,7 @@ def run_history(R, K, case, seed, prepared=False, nunreg=200):
     streams = [u['stream'] or [] for u in resB['ups']]
     corr = None
     resC = None
-    if model_cost(resB, case) <= 4 * MODEL_ID_ATTEMPTS or prepared:
+    if model_cost(resB, case) <= 6 * MODEL_ID_ATTEMPTS or prepared:
         resC = R.run_model(case, streams)
         a, b = canonical(resB['ups']), canonical(resC['ups'])
         if resC['rc'] != 0:
@@ -690,7 +689,7 @@ def main():
     if ctx.thorough and nohook:
         xjobs = []
         for i in range(3):
-            n = rng.range(280, 330)
+            n = rng.range(330, 360) if i < 2 else rng.range(280, 300)
             ids = gen_ids(rng, 'random', n)
             case = {'variant': 'checked' if i % 2 == 0 else 'fast', 'mode': 'throw', 'name': 'exhaust-%d' % i, 'family': 'random', 'shape': 'exhaust',
                     'updates': [{'budget': K['budget_hook_default'], 'classes': [[j + 1, [t]] for j, t in enumerate(ids)], 'lookups': []}]}
